@@ -178,6 +178,14 @@ pub fn instr_call_function<T>(
         }
     }
 
+    // look the target up first: a call that fails here has not become a frame of the call chain
+    let target = program
+        .labels
+        .0
+        .get(label)
+        .ok_or(ExecutionErrorPayload::ProcedureNotFound(label))?
+        .pos as usize;
+
     push_call_frame(
         arity as usize,
         src_ptr as u32,
@@ -187,12 +195,7 @@ pub fn instr_call_function<T>(
     )?;
 
     // set the instr_ptr to the new function's beginning
-    *instr_ptr = program
-        .labels
-        .0
-        .get(label)
-        .ok_or(ExecutionErrorPayload::ProcedureNotFound(label))?
-        .pos as usize;
+    *instr_ptr = target;
     Ok(())
 }
 
